@@ -305,8 +305,17 @@ static ssize_t v_splice(int fdin, void *offin, int fdout, void *offout, size_t l
 		s = &slots[cur];
 		p = pipe_of(fdout);
 		if (p == NULL) { printf("BADFD splice-in to %d\n", fdout); errno = EBADF; return -1; }
-		if (in_result(len, &n) < 0)
+		if (in_result(len, &n) < 0) {
+			/* ground truth for the band oracle, whether or not the code asks (FIONREAD): the splice refused although the pipe
+			 * holds data; the script's next FIONREAD answer says how much input is pending, and pending input means the
+			 * refusal was for lack of pipe space (a pipe has 16 slots, however few bytes each holds) */
+			if (errno == EAGAIN && p->len > 0) {
+				long v = (fqi < fqn) ? fq[fqi] : 0;
+				if (v != -999)
+					printf("TRUTH pending %ld\n", v);
+			}
 			return -1;
+		}
 		pipe_append(p, s->uid, s->src_pos, n);
 		s->src_pos += n;
 		return n;
